@@ -203,8 +203,17 @@ func genModuleSet(r *rng, wantConflicts int) *wlMerge {
 		sort.Strings(out)
 		return out
 	}
-	for c := 0; c < wantConflicts; c++ {
-		switch r.intn(10) {
+	// several syntactically broken files at once (each standalone)
+	extraBroken := 0
+	if wantConflicts > 0 && r.chance(12) {
+		extraBroken = 2 + r.intn(2)
+	}
+	for c := 0; c < wantConflicts+extraBroken; c++ {
+		kind := r.intn(10)
+		if c >= wantConflicts {
+			kind = 8
+		}
+		switch kind {
 		case 0: // duplicate type
 			ts := allTypes()
 			tn := ts[r.intn(len(ts))]
